@@ -51,7 +51,7 @@ static bool malformed(const ProgCase &c, const Op &oo, uint64_t fd_table) {
   if (c.cb_null || c.ident_kind == 1) return true;
   switch (o.event) {
   case EV_READ: case EV_WRITE:
-    if (c.ident_kind == 2) return true;
+    if (c.ident_kind != 0) return true;  // not a descriptor inside the table (EBADF)
     (void)fd_table;
     if (o.fflags & ~1u) return true;
     return false;
@@ -91,7 +91,20 @@ static Verdict run_prog(const ProgCase &c) {
       label("malformed_refused");
       continue;
     }
-    if (op.flags & 0xc) { label("reserved_flag_bits_unspecified"); live = r.live_fds; has_tfd = (uint32_t)(r.tpdata & 0xffffffffu) != 0; continue; }
+    if (op.flags & 0xc) {
+      // outcome unspecified: follow what the library did so that later operations are judged against the real state
+      label("reserved_flag_bits_unspecified");
+      live = r.live_fds;
+      has_tfd = (uint32_t)(r.tpdata & 0xffffffffu) != 0;
+      if (r.rc == 0 && (op.event == EV_READ || op.event == EV_WRITE)) { rw_reg = (op.op != 3); reg_event = rw_reg ? op.event : -1; }
+      if (r.rc == 0 && op.event == EV_TIMER) reg_event = has_tfd ? EV_TIMER : -1;
+      continue;
+    }
+    if (reg_event != -1 && op.event != reg_event) {
+      // one user record is registered for one event kind at a time; switching kinds on a live record is caller misuse
+      label("mixed_event_kinds_on_one_udata");
+      return Verdict::pass();
+    }
     if (op.event == EV_PROC) {
       // no such process behind the cookie: must fail and leave nothing behind
       PBT_REQUIRE(r.live_fds == live, tag << ": failed process registration left a descriptor");
@@ -371,7 +384,7 @@ static Verdict run_fire(const FireCase &c) {
     int used = 0;
     for (int j = 0; j < C06_MAX_CH; j++) used += c.kind[j] != 0;
     if (used >= 2) nt = true;
-    PBT_REQUIRE(o.res.live_fds == 0, "descriptors left after deleting every registration and destroying the pool: " << o.res.live_fds);
+    PBT_REQUIRE(o.res.live_fds == o.base_live_fds, "descriptors left after deleting every registration and destroying the pool: " << o.res.live_fds << " (before: " << o.base_live_fds << ")");
     if (nt) nontrivial_cur();
     return Verdict::pass();
   }
